@@ -481,6 +481,28 @@ impl Scenario for HostileMaster {
                     },
                     from: Who::Master,
                 }),
+                6 if connected && !wire_garbage_in_session => {
+                    // a poll, then a peer that keeps chattering - confirmations that confirm nothing, more often than the
+                    // confirm time-out - for longer than two time-outs: whatever the outstation was waiting for, the poll is
+                    // answered ("never stalls")
+                    script.push(Op::Request {
+                        func: refapp::FUNC_READ,
+                        seq: SeqSel::Next,
+                        headers: vec![ReqHeader::all(60, 2), ReqHeader::all(60, 3), ReqHeader::all(60, 4)],
+                        flags: None,
+                        from: Who::Master,
+                        to: Dest::Own,
+                    });
+                    let gap = (cfg.confirm_timeout_ms * 2 / 5).max(1);
+                    for _ in 0..rng.urange(6, 9) {
+                        script.push(Op::Confirm {
+                            uns: rng.chance(3, 4),
+                            seq: ConfSel::Offset(rng.range(2, 14) as u8),
+                            from: Who::Master,
+                        });
+                        script.push(Op::Sleep(gap));
+                    }
+                }
                 _ => {}
             }
             // then the hostile input
@@ -629,6 +651,11 @@ pub struct ProbeOracle {
     fp: u64,
     busy: bool,
     counters: BTreeMap<String, u64>,
+    confirm_timeout: u64,
+    /// link-level garbage has reached the outstation on this connection (a later frame may be lost to resynchronisation)
+    garbage_on_link: bool,
+    /// a well-formed READ from the master that has not been answered yet: (sequence number, when it was sent)
+    unanswered_read: Option<(u8, u64)>,
 }
 
 impl ProbeOracle {
@@ -657,12 +684,55 @@ impl ProbeOracle {
             fp: 0,
             busy: false,
             counters: BTreeMap::new(),
+            confirm_timeout: case.cfg.confirm_timeout_ms,
+            garbage_on_link: false,
+            unanswered_read: None,
         }
     }
 }
 
 impl Oracle for ProbeOracle {
     fn step(&mut self, world: &World, step: &Step) -> Option<Violation> {
+        // "never stalls": a well-formed READ from the configured master is answered at once, or - when it arrives while an
+        // unsolicited response awaits its confirmation - when that wait ends, one confirm time-out after the unsolicited response
+        // was sent at the latest, whatever else the peer sends in the meantime that is not a request (judged while only
+        // confirmations and pauses follow the READ on a connection that has seen no link-level garbage)
+        if step.connected || step.disconnected {
+            self.garbage_on_link = false;
+            self.unanswered_read = None;
+        }
+        match &step.op {
+            Op::WireBytes(_) => {
+                self.garbage_on_link = true;
+                self.unanswered_read = None;
+            }
+            Op::Request { func: 1, flags: None, from: Who::Master, to: Dest::Own, .. }
+                if step.link_up && !self.garbage_on_link && step.sent.is_some() =>
+            {
+                let seq = step.sent.as_ref().and_then(|s| s.bytes.first().map(|c| c & 0x0F)).unwrap_or(0);
+                self.unanswered_read = Some((seq, step.t_start));
+            }
+            Op::Confirm { .. } | Op::Sleep(_) | Op::SleepRel { .. } => {}
+            _ => self.unanswered_read = None,
+        }
+        if let Some((seq, t0)) = self.unanswered_read {
+            let answered = step.received.iter().any(|f| {
+                f.bytes.len() >= 4 && f.bytes[1] == 129 && f.bytes[0] & 0x9F == 0x80 | seq
+            });
+            if answered {
+                self.unanswered_read = None;
+                *self.counters.entry("probe.read_answered_in_time".to_string()).or_insert(0) += 1;
+            } else if step.t_end > t0 + self.confirm_timeout + 50 {
+                return Some(Violation::new(
+                    "C01/outstation-stalled",
+                    "read-not-answered-within-a-confirm-timeout",
+                    format!(
+                        "step {}: the READ (seq {}) sent at {} ms had not been answered by {} ms (confirm time-out {} ms) although only confirmations and pauses followed it",
+                        step.op_index, seq, t0, step.t_end, self.confirm_timeout
+                    ),
+                ));
+            }
+        }
         // track whether the outstation is in the middle of something when hostile input arrives
         let hostile = matches!(step.op, Op::Raw { .. } | Op::WireBytes(_) | Op::Repeat)
             || matches!(&step.op, Op::Request { flags: Some(_), .. });
